@@ -235,7 +235,7 @@ def _patterns_for(rng, host, addr, port, hit):
 def gen_cases(tier, seed):
     rng = random.Random(f'c04-{seed}')
     cases = []
-    n = 700 if tier == 'quick' else 30000
+    n = 1800 if tier == 'quick' else 30000
 
     for i in range(n):
         host = rng.choice(HOSTS)
@@ -308,7 +308,7 @@ def gen_cases(tier, seed):
                       'chunk': rng.choice(['all', 'record', 'random']),
                       'cseed': rng.randrange(1 << 30)})
 
-    nl = 60 if tier == 'quick' else 1500
+    nl = 135 if tier == 'quick' else 1500
     for i in range(nl):
         cases.append({'kind': 'lie',
                       'lie': ['sign_other_key', 'sign_other_hash',
